@@ -24,6 +24,9 @@ class UnitResult:
         self.run_bad = []         # (prop, message)
         self.pkg_status = None
         self.fn = None
+        self.emit_impl = self.emit_model = None
+        self.emit_bad = []
+        self.run_pairs = []       # (plan, impl projection, model reply)
 
     def summary(self):
         return {"prog": self.prog.name, "unit": self.u.uid, "request": self.request, "impl": self.impl, "model": self.model}
@@ -77,6 +80,7 @@ def evaluate(progs, want_build=True, want_run=True, keep=False, vet=False):
                     toks, probs = C.ir_calls(ur.ix, fn, f)
                     ur.ir_problems = probs
                     ur.impl = " ".join(["ok"] + toks)
+                    ur.emit_impl, ur.emit_bad = C.ir_emit(ur.ix, fn)
                 ur.irfile = f
             elif ur.pkg_status == "failed":
                 ur.impl = "blocked"      # another injector of the package failed: nothing is written
@@ -86,8 +90,13 @@ def evaluate(progs, want_build=True, want_run=True, keep=False, vet=False):
         lines = []
         for ur in units:
             lines += [ur.request, ur.sets_request]
+        for ur in units:
+            tail = " ".join(ur.request.split()[1:])
+            lines.append("emit %d %d %s" % (int(ur.u.inj["cleanup"]), int(ur.u.inj["err"]), tail))
         mr = C.model_replies(lines)
         for k, ur in enumerate(units):
+            if 2 * len(units) + k < len(mr):
+                ur.emit_model = mr[2 * len(units) + k]
             if 2 * k + 1 < len(mr):
                 ur.model, ur.model_sets = mr[2 * k], mr[2 * k + 1]
                 if ur.model.startswith("err") and "importfailed" in ur.model:
@@ -129,6 +138,18 @@ def evaluate(progs, want_build=True, want_run=True, keep=False, vet=False):
                         for rn in ur.runs:
                             for pr, msg in orc.check_run(rn):
                                 ur.run_bad.append((pr, "plan=%s: %s" % (",".join(rn["plan"]), msg)))
+                # predicted traces for every executed plan
+                rl, owners = [], []
+                for ur in units:
+                    tail = " ".join(ur.request.split()[1:])
+                    for rn in ur.runs:
+                        ids = [p.split("Prov")[-1] for p in rn["plan"]]
+                        rl.append("run %d %d %d %s %s" % (int(ur.u.inj["cleanup"]), int(ur.u.inj["err"]), len(ids), " ".join(ids), tail))
+                        owners.append((ur, rn))
+                if rl:
+                    rr = C.model_replies([" ".join(x.split()) for x in rl])
+                    for (ur, rn), rep in zip(owners, rr):
+                        ur.run_pairs.append((",".join(rn["plan"]), C.run_projection(ur.ix, rn), rep))
                 info["times"]["run"] = round(time.time() - t, 2)
         return units, info
     finally:
